@@ -836,3 +836,28 @@ Proof.
   rewrite forallb_forall in H. specialize (H _ Hin). simpl in H. rewrite Hl, Hk in H. simpl in H.
   exact (chk_prog_sound no_tol p t o H Hx Ho).
 Qed.
+
+(* ---------------------------------------------------------------------------------------- *)
+(* Examples: the hypotheses of the theorems are satisfiable by non-trivial systems            *)
+Section Examples.
+Local Open Scope string_scope.
+(* two readers and one writer on table "T" (a counter); results are collected in the local memory *)
+Definition ex_read : op string nat (list nat) := mkOp "T" Rm [BRd (fun lc s => s :: lc)].
+Definition ex_incr : op string nat (list nat) := mkOp "T" Wm [BRd (fun lc s => s :: lc); BWr (fun _ s => S s)].
+Definition ex_ats : list (athread string nat (list nat)) :=
+  [([ex_read; ex_read], []); ([ex_incr; ex_incr], []); ([ex_read], [])].
+
+Example ex_ats_ok : Forall (fun a : athread string nat (list nat) => forallb op_ok (fst a) = true) ex_ats.
+Proof. repeat constructor. Qed.
+
+Example ex_initial : initial string String.eqb nat (list nat) (ainit string nat (list nat) ex_ats).
+Proof. intros t [<-|[<-|[<-|[]]]]; split; reflexivity. Qed.
+
+(* a thread program follows a skeleton path: same lock operations and accesses, parameter "t" bound to table "main",
+   the callback and the labels forgotten *)
+Example ex_follows :
+  follows string nat unit (fun x => if String.eqb x "t" then "main" else x)
+    [Acq "main" Rm; RwLock.Rd "main" (fun l _ => l); RwLock.Rd "main" (fun l _ => l); RwLock.Rel "main"]
+    [AcqR "t"; LockSkeletons.Rd "t" ".ipv4"; LockSkeletons.Rd "t" "pfx_table_for_each_rec"; Cb "fp"; LockSkeletons.Rel "t"].
+Proof. unfold follows. simpl. repeat constructor. Qed.
+End Examples.
